@@ -127,14 +127,35 @@ def _cleanup(path, pid):
 
 
 _last_isa_written = {}
+_last_files = {}
 
 
 def _materialize(case: Case, root: str):
     """Writes the case's files under root; returns (asm_path, cfg_path, out_path, pp_path)."""
     work = os.path.join(root, 'w')
-    if os.path.isdir(work):
-        shutil.rmtree(work)
-    os.makedirs(work)
+    prev = _last_files.get(work)
+    if prev is None:
+        if os.path.isdir(work):
+            shutil.rmtree(work)
+        os.makedirs(work)
+    else:
+        # remove exactly what the previous execution in this directory created (cheaper than rmtree)
+        for pth in prev:
+            try:
+                os.unlink(pth)
+            except FileNotFoundError:
+                pass
+        for pth in (os.path.join(work, 'out.bin'), os.path.join(work, 'out.pp')):
+            try:
+                os.unlink(pth)
+            except FileNotFoundError:
+                pass
+        leftover = os.listdir(work)
+        if any(not os.path.isdir(os.path.join(work, e)) for e in leftover):
+            shutil.rmtree(work)
+            os.makedirs(work)
+    written = []
+    _last_files[work] = written
     # ISA definition: JSON (AssemblerModel accepts .json) unless the case asks for YAML
     if case.isa_yaml:
         import yaml
@@ -155,6 +176,7 @@ def _materialize(case: Case, root: str):
             os.makedirs(d)
         with open(p, 'w', newline='') as f:
             f.write(text)
+        written.append(p)
     for d in case.incdirs:
         p = os.path.join(work, d)
         if not os.path.isdir(p):
